@@ -17,6 +17,16 @@
 #define PORTABLE_USE_GRISU3 1
 #endif
 #include "flatcc/portable/pparsefp.h"
+
+/*
+ * Generated table parsers recurse on nested tables of the input and the
+ * verifier rejects nesting deeper than FLATCC_VERIFIER_MAX_LEVELS (100):
+ * bound the builder nesting level while parsing unless the user has set
+ * a limit of his own.
+ */
+#ifndef FLATCC_JSON_PARSE_MAX_LEVELS
+#define FLATCC_JSON_PARSE_MAX_LEVELS 100
+#endif
 #include "flatcc/portable/pbase64.h"
 
 #if FLATCC_USE_SSE4_2
@@ -1274,11 +1284,20 @@ int flatcc_json_parser_table_as_root(flatcc_builder_t *B, flatcc_json_parser_t *
     flatcc_json_parser_t _ctx;
     flatcc_builder_ref_t root;
     flatcc_builder_buffer_flags_t builder_flags = flags & flatcc_json_parser_f_with_size ? flatcc_builder_with_size : 0;
+    int max_level = B->max_level;
 
     ctx = ctx ? ctx : &_ctx;
     flatcc_json_parser_init(ctx, B, buf, buf + bufsiz, flags);
-    if (flatcc_builder_start_buffer(B, fid, 0, builder_flags)) return -1;
+    if (max_level == 0) {
+        /* Must be in place before the first frame is entered. */
+        B->max_level = FLATCC_JSON_PARSE_MAX_LEVELS;
+    }
+    if (flatcc_builder_start_buffer(B, fid, 0, builder_flags)) {
+        B->max_level = max_level;
+        return -1;
+    }
     buf = parser(ctx, buf, buf + bufsiz, &root);
+    B->max_level = max_level;
     if (ctx->error) {
         return ctx->error;
     }
